@@ -76,6 +76,9 @@ def cstr_values(level):
     return out if level <= 2 else out[:2] + out[5:]
 
 
+# the additive clauses (loss, isotope step, charge, precision) on peptides with a global isotope label: these take the
+# composition route inside mass(); the clauses are evaluated differentially (no label reference needed here, C12 has it)
+LABELS = [['13C'], ['15N'], ['18O'], ['D'], ['13C', '15N']]
 SHAPE_AXES = ['labile', 'static', 'unknown', 'nterm', 'r0', 'rmid', 'rlast', 'iv', 'cterm']
 OPT_AXES = ['charge_arg', 'cstr', 'adducts_arg', 'ion', 'isotope', 'loss', 'precision', 'avg']
 AXES = SHAPE_AXES + OPT_AXES
@@ -138,6 +141,7 @@ def shards(tier):
             out.append(sh)
     out += [{'kind': 'letters', 'first': a} for a in refdata.ALL_LETTERS]
     out.append({'kind': 'unimod'})
+    out += [{'kind': 'labelled', 'label': lab} for lab in LABELS]
     return out
 
 
@@ -152,6 +156,11 @@ def gen(shard, tier):
         a = shard['first']
         yield {'kind': 'letters', 'seqs': [a] + [a + b for b in refdata.ALL_LETTERS] +
                ([a + b + c for b in 'GKMWX' for c in 'GKMWX'] if a in 'GKMWX' else [])}, 1, True
+    elif shard['kind'] == 'labelled':
+        for seq in ('SK', 'PEK', 'SMKPEMK'):
+            for mod in (None, 'Oxidation', '15.995', 'Formula:C2H2O'):
+                for ion in ('p', 'n', 'b', 'y', 'a', 'cy'):
+                    yield {'kind': 'labelled', 'seq': seq, 'label': shard['label'], 'mod': mod, 'ion': ion}, 2, True
     else:
         yield {'kind': 'unimod'}, 1, True
 
@@ -219,6 +228,38 @@ def check(case, ctx):
                          adducts=adducts, monoisotopic=mono, precision=prec, charge=z,
                          avg_minus_mono_of_mods=_avg_mono_gap(P, ref_kw.get('ion', 'p')))
         ctx.outcome = [s, sorted(kw.items(), key=str), round(ref, 4)]
+    elif case['kind'] == 'labelled':
+        P = {'seq': case['seq'], 'isotope': case['label']}
+        if case['mod']:
+            P['res'] = [[0, [[case['mod'], 1]]]]
+        s = pmodel.render(P)
+        ion = case['ion']
+        n = 0
+        for z in (None, 0, 1, 2, -1):
+            st, base = lib.call(p.mass, s, charge=z, ion_type=ion)
+            ctx.evals += 1
+            if st != 'ok':
+                ctx.fail('labelled-mass-raises', 'mass', base, call=['mass', s, z, ion])
+                continue
+            for loss in (-18.010565, 1.5):
+                for iso in (0, 1, 3):
+                    for prec in (None, 2, 6):
+                        n += 1
+                        st, m = lib.call(p.mass, s, charge=z, ion_type=ion, loss=loss, isotope=iso, precision=prec)
+                        ctx.evals += 1
+                        exp = base + loss + iso * refdata.NEUTRON
+                        tol = 1e-9 + (0.5 * 10 ** (-prec) if prec is not None else 0)
+                        if st != 'ok' or not lib.close(m, exp, tol):
+                            ctx.fail('labelled-additive', exp, m, call=['mass', s, {'charge': z, 'ion_type': ion, 'loss': loss,
+                                                                                    'isotope': iso, 'precision': prec}])
+            if z is not None and z > 0:
+                st, mz = lib.call(p.mz, s, charge=z, ion_type=ion)
+                ctx.evals += 1
+                if st != 'ok' or not lib.close(mz, base / z, 1e-9):
+                    ctx.fail('labelled-mz', base / z, mz, call=['mz', s, z, ion])
+        ctx.sub_states = n
+        ctx.sub_nontrivial = n
+        ctx.outcome = [s, ion]
     elif case['kind'] == 'letters':
         n = 0
         for s in case['seqs']:
